@@ -118,9 +118,11 @@ class ECDSAPrivateKey(_ECKey):
         priv = priv_key.private_numbers()
         pub = priv.public_numbers
 
-        if not public_value:
+        if not public_value or public_value[0] != 4:
             # The public point is optional in an encoded EC private
-            # key (RFC 5915), so derive it when it is not provided
+            # key (RFC 5915), so derive it when it is not provided.
+            # Also do so when it was provided in compressed form, as
+            # SSH (RFC 5656) only uses uncompressed points.
             public_value = priv_key.public_key().public_bytes(
                 Encoding.X962, PublicFormat.UncompressedPoint)
 
